@@ -883,7 +883,8 @@ def impl_obj(case):
 
 def r_odata(rng):
     n = rng.choice([0, 1, 2, 3, 5, 8, 12])
-    alpha = 'ACGT' if rng.random() < 0.7 else 'ACGTacgtN-'
+    r = rng.random()
+    alpha = 'ACGT' if r < 0.65 else 'ACGTacgtN-' if r < 0.9 else 'ACGU'      # RNA: complement() takes the U <-> T detour
     return ''.join(rng.choice(alpha) for _ in range(n))
 
 
@@ -1356,7 +1357,7 @@ LEVEL_TEXT = ('Machine-checked Coq theorems (60, all closed under the global con
               'identities numbered in first-visit order); the remaining BioSeq / Feature / Location operations are decided by randomized operation '
               'histories and deterministic matrices on real objects (testing, not proof).')
 LEVEL_NOTE = ('Proved for the models only; the models are tied to /repo by testing (0 disagreements over 36 033 cases in the thorough tier, 659 s). '
-              'All 24 statements of the 9 modelled Attr methods (meta.py) are executed in the quick tier; none is unreachable. '
+              'All 24 statements of the 9 modelled Attr methods (meta.py) are executed in the quick tier; none is unreachable; of the modelled seq.py functions only the tuple-index branches of BioBasket.__setitem__ (seq.py:886-891) and data[\'meta\'] of BioBasket.__init__ (seq.py:661) are not reached (not modelled). '
               'Trusted: Coq kernel/vm_compute, copy.deepcopy and CPython reference semantics (heap model: deepcopy as read-and-rebuild, exact '
               'for tree-shaped objects, decided by tree_shaped; object model: deepcopy as graph copy over the reachable set computed by a '
               'fuelled DFS, failing closed -- OutOfDomain -- if the set were not closed; proved never to happen on reachable states), MutableMapping mixins, collections.UserList, the harness. '
